@@ -73,9 +73,21 @@ TraceClosest ==
        /\ PostClosestAs(q, Ev.nodeOk, Ev.dataOk, {Mem(x) : x \in Range(Ev.closest)})
   /\ UNCHANGED obs
 
+\* follow-the-code mode only: the query completes although its response was never merged (no Closest event):
+\* the responder has answered all the same, which is what the C02 predicates need to know
+PostDoneSkipping(q) ==
+  /\ q \in qs /\ q.ph = "closest"
+  /\ LET e == [id |-> q.resp.id, addr |-> q.addr]
+         ok == NodeOK([addr |-> q.addr, id |-> q.resp.id]) /\ q.resp.dok IN
+     /\ responders' = responders \cup {e}
+     /\ eligible' = IF ok THEN eligible \cup {e} ELSE eligible
+  /\ qs' = qs \ {q}
+  /\ Broadcast
+  /\ UNCHANGED <<cfg, unq, queried, closest, stopping, stopped, run, stp, cons, offered, qcount, learned>>
+
 TraceQueryDone ==
   /\ IsEvent("QueryDone")
-  /\ \E q \in qs : q.addr = Ev.c.addr /\ q.cid = Ev.c.id /\ PostDone(q)
+  /\ \E q \in qs : q.addr = Ev.c.addr /\ q.cid = Ev.c.id /\ (PostDone(q) \/ (~Strict /\ PostDoneSkipping(q)))
   /\ Strict => Ev.out = Outstanding'
   /\ UNCHANGED obs
 
